@@ -222,8 +222,11 @@ class Channel(
             for connect_to in other.connections:
                 # We do them one at a time in case any fail, so we can undo those that
                 # worked
+                already_connected = connect_to in self.connections
                 self.connect(connect_to)
-                new_connections.append(connect_to)
+                if not already_connected:
+                    # Only what we form here may be unwound again
+                    new_connections.append(connect_to)
         except Exception as e:
             self.disconnect(*new_connections)
             raise e
